@@ -22,6 +22,10 @@ Specials == {
   Note(One, "a note"), Note(Lit(StrD(Sa), <<R("minLength", NV(N1))>>), "note after rules"),
   Note(Obj(<<P(Ka, Note(One, "first")), P(Kb, Note(Lit(StrD(Sa), <<OptR>>), "second"))>>, <<R("additionalProperties", BV(TRUE))>>), "object note"),
   Note(Arr(<<Note(One, "i0"), Lit(StrD(Sa), <<NullR>>)>>, <<R("minItems", NV(N1)), R("maxItems", NV(N5))>>), "array note"),
+  \* a note after the closing brace belongs to the object; the notes of the properties inside stay theirs
+  Obj(<<P(Ka, Note(One, "x")), P(Kb, Lit(StrD(Sa), <<OptR>>))>>, <<>>) @@ [tnote |-> "after the brace"],
+  Obj(<<P(Ka, Obj(<<P(Kb, Note(One, "inner"))>>, <<>>) @@ [tnote |-> "after a"]), P(Kc, Note(One, "c"))>>, <<>>) @@ [tnote |-> "end"],
+  Arr(<<Obj(<<P(Ka, Note(One, "x"))>>, <<>>) @@ [tnote |-> "item"], One>>, <<>>),
   Obj(<<P(Kd, Lit(NumD(N2), <<>>))>>, <<R("allOf", TRef("@A1"))>>),
   Obj(<<P(Kd, Lit(NumD(N2), <<>>))>>, <<R("allOf", ListV(<<TRef("@A1")>>))>>),          \* a one-item array stays an array
   Obj(<<P(Kd, Lit(NumD(N2), <<OptR>>)), P(Kc, Ref(<<"@I">>, <<>>))>>, <<R("allOf", ListV(<<TRef("@A1"), TRef("@A2")>>)), R("additionalProperties", IdV("string"))>>),
